@@ -186,12 +186,9 @@ func (v map_[K, V]) RemoveValues(keys Sequential[K]) Sequential[V] {
 }
 
 func (v map_[K, V]) RemoveAll() {
-	var keys = v.GetKeys()
-	var iterator = keys.GetIterator()
-	for iterator.HasNext() {
-		var key = iterator.GetNext()
-		delete(v, key)
-	}
+	// Deleting key by key would leave behind an association whose key is not
+	// equal to itself (a NaN), so the map is cleared as a whole.
+	clear(v)
 }
 
 // Sequential
